@@ -2,7 +2,7 @@
     Model: Core/Run.v ([part_run]/[part_paths], [path_run]/[path_paths] mirror jaq-core/src/path.rs),
     Val/Index.v (mirrors the indexing primitives of jaq-json/src/lib.rs). *)
 From Coq Require Import List ZArith.
-From JaqV Require Import Base.Stream Val.Val Val.Err Val.Index Core.Syntax Core.Natives Core.Run Proofs.PathLaws Proofs.GetpathLaws Proofs.MonadLaws Proofs.UpdateRules.
+From JaqV Require Import Base.Stream Val.Val Val.Err Val.Index Core.Syntax Core.Natives Core.Run Proofs.PathLaws Proofs.GetpathLaws Proofs.MonadLaws Proofs.UpdateRules Proofs.PathsProject.
 Import ListNotations.
 
 (** one path part: evaluating for paths yields, in order, exactly the values that evaluating for values yields,
@@ -129,3 +129,22 @@ Theorem update_of_constructed_value_fails : forall d nr defs n c v f t,
   update d nr defs (S n) t c v f = serr (EPathExpr v).
 Proof. exact UpdateRules.update_of_constructed_value_fails. Qed.
 Print Assumptions update_of_constructed_value_fails.
+
+(** ** path(f) lists, in order, the positions of exactly the values f outputs *)
+(** [ok_term k]: k contains neither `//` (whose paths follow the manual's `if first(f // false)` rule and include falsy
+    outputs) nor `try` (which can catch the refusal of a value-constructing subterm) where it is evaluated for paths, and binds
+    with plain variables; every other construct is admitted: pipes, commas, conditionals, bindings, reduce/foreach, labels,
+    path terms of any length, `..`, calls of definitions with variable and filter arguments (closures), first/last/limit/skip
+    and every other native (which refuse).  [sproj s r]: the stream of (value, path) pairs s carries the values of r, item by
+    item and with the same end - or stops with the path-expression error.  For every fuel, term, context and input: *)
+Theorem paths_carry_the_outputs : forall d nr defs, Forall ok_term defs ->
+  forall n k c x p, ok_term k -> ok_ctx c -> sproj (paths d nr defs n k c (x, p)) (run d nr defs n k c x).
+Proof. exact PathsProject.paths_carry_the_outputs. Qed.
+Print Assumptions paths_carry_the_outputs.
+
+(** when the path evaluator does not refuse, the values at the paths are exactly the outputs *)
+Theorem path_values_are_the_outputs : forall d nr defs, Forall ok_term defs ->
+  forall n k c x p, ok_term k -> ok_ctx c -> accepted (paths d nr defs n k c (x, p)) ->
+  smap fst (paths d nr defs n k c (x, p)) = run d nr defs n k c x.
+Proof. exact PathsProject.paths_values_exact. Qed.
+Print Assumptions path_values_are_the_outputs.
